@@ -316,6 +316,7 @@ static void c7_pagedamage(int kind,long i,long j,long long v){
     unsigned char *src=c7_phys.p+seg[k].off; long len=seg[k].len;
     if(kind==13&&me){ long q; uint32_t st=(uint32_t)(v*2654435761u+k)|1; for(q=0;q<v&&q<4000000;q++){ unsigned char c; st^=st<<13; st^=st>>17; st^=st<<5; c=st&255; if(c=='O')c='o'; buf_add(&out,&c,1); } }
     if(kind==6&&me)continue;
+    if(kind==17&&k>idx[i])continue;                           /* the file ends with page i */
     if(kind==8&&(k==idx[i]||k==idx[j])){ int o=(k==idx[i])?idx[j]:idx[i]; buf_add(&out,c7_phys.p+seg[o].off,seg[o].len); continue; }
     {
       long at=out.n; buf_add(&out,src,len);
@@ -522,6 +523,21 @@ static int c07_main(int argc,char **argv){
         printf("read rc=%s link=%d t0=%lld t1=%lld ok=%d",ovname(r),r>0?bs:-1,(long long)t0,(long long)t1,ok);
         if(ok==0)printf(" mis=%ld:%ld:%ld",c7_mis_n,c7_mis_first,c7_mis_last);
         putchar('\n');
+      }else if(!strcmp(op,"readto")&&n>=3){
+        /* read on (no seek) until the position reaches <pos>: requests sized so that the position lands on it exactly; every chunk is checked like a read */
+        ogg_int64_t target=atoll(tok[2]); long r=0; int okall=1,cnt=0,bs=-7;
+        while(cnt<200000){
+          float **pcm; ogg_int64_t t0=ov_pcm_tell(vf); int hs=ov_halfrate_p(vf)>0; long want; int ok=-1;
+          if(t0<0||t0>=target)break;
+          want=(long)((target-t0)>>hs); if(want<1)want=1; if(want>4096)want=4096;
+          r=ov_read_float(vf,&pcm,(int)want,&bs); cnt++;
+          if(r<=0)break;
+          H->played+=r;
+          if(vf->seekable&&H->lap_valid&&H->lap_hs==hs) ok=c7_check_lap(H,hs,pcm,r,bs,t0);
+          else if(vf->seekable) ok=c7_check(hs,pcm,r,bs,t0);
+          if(ok==0)okall=0;
+        }
+        printf("readto rc=%s tell=%lld ok=%d n=%d\n",ovname(r<0?r:0),(long long)ov_pcm_tell(vf),okall,cnt);
       }else if(!strcmp(op,"readi")&&n>=6){
         char *buf=malloc(atoi(tok[2])+16); int bs=-7; ogg_int64_t t0=ov_pcm_tell(vf); long r=ov_read(vf,buf,atoi(tok[2]),atoi(tok[3]),atoi(tok[4]),atoi(tok[5]),&bs);
         H->played=0; /* (frame count not tracked here) */
